@@ -14,8 +14,10 @@ ap.add_argument("prop"); ap.add_argument("n")
 ap.add_argument("--props", nargs="*")
 ap.add_argument("--no-suite", action="store_true")
 ap.add_argument("--skip-checks", action="store_true")
+ap.add_argument("--round", type=int, default=1)
 ns = ap.parse_args()
-wt = f"/tmp/wt/{ns.prop}"; out = f"/tmp/wt/out/{ns.prop}"
+base = "/tmp/wt" if ns.round == 1 else f"/tmp/wt{ns.round}"
+wt = f"{base}/{ns.prop}"; out = f"{base}/out/{ns.prop}"
 patch = f"{out}/mut{ns.n}.diff"; demo = f"{out}/demo{ns.n}.py"; notes = f"{out}/notes{ns.n}.md"
 def sh(cmd, **kw): return subprocess.run(cmd, shell=True, capture_output=True, text=True, **kw)
 def demo_rc():
@@ -37,13 +39,13 @@ caught = re.search(r"CAUGHT-BY: (.*)", ev.stdout)
 caught = caught.group(1).split() if caught and caught.group(1) != "none" else []
 sigs = [ln.strip() for ln in ev.stdout.splitlines() if ln.strip().startswith("violation")]
 confirmed = rc_clean == 0 and rc_mut != 0 and (suite is None or suite[0] == 0)
-print(f"{ns.prop}-{ns.n}: demo clean rc={rc_clean}, with change rc={rc_mut}, suite={suite}, confirmed={confirmed}, caught by {caught}")
-d = f"/verif/seeded/{ns.prop}-{ns.n}"
+print(f"round {ns.round} {ns.prop}-{ns.n}: demo clean rc={rc_clean}, with change rc={rc_mut}, suite={suite}, confirmed={confirmed}, caught by {caught}")
+d = f"/verif/seeded/{ns.prop}-{int(ns.n) + 2 * (ns.round - 1)}"
 if confirmed:
     os.makedirs(d, exist_ok=True)
     shutil.copy(patch, f"{d}/patch.diff"); shutil.copy(demo, f"{d}/demo.py")
     note = open(notes).read() if os.path.exists(notes) else ""
-    meta = dict(breaks_property=ns.prop, source="independent sub-agent (property text + scratch worktree only)",
+    meta = dict(breaks_property=ns.prop, source=f"independent sub-agent, round {ns.round} (property text + scratch worktree only)",
                 needs_to_manifest=note[:1500],
                 confirmed=dict(demo_rc_clean_tree=rc_clean, demo_rc_with_change=rc_mut,
                                pinned_suite_with_change=suite[1] if suite else "not run",
